@@ -266,6 +266,8 @@ class DimFlow:
                     return x["n"]
             return None
         k = e.get("k")
+        if k == "Member" and field(e):
+            return (field(e), True)          # the pointer itself in a bool context (static_cast<bool>(p), bool(p))
         if k in ("MCall", "OpCall", "Call") and (e.get("n") == "operator bool" or self.h["cname"](e) == "operator bool") and e.get("obj") is not None:
             f = field(e["obj"])
             return (f, True) if f else None
@@ -586,6 +588,8 @@ class DimFlow:
                 self.define(args[1], a, st)
                 return {}
             raise Unmodelled("call %s" % callee)
+        if nm == "get" and obj is not None and any(x in (self.fn.ntype(h["strip"](obj)) or "") for x in ("shared_ptr", "unique_ptr")):
+            return self.sys.fresh(":ptr")
         if nm == "operator bool" or (c.get("k") == "OpCall" and c.get("op") in ("==", "!=") and any(isinstance(a, dict) and self.base_lo.resolve(a).get("k") == "Null" for a in args)):
             return {}
         if c.get("k") == "Call" and callee in ("FEAT::assertion", "FEAT::abortion"):
